@@ -135,15 +135,13 @@ MoveMonths(s, k, eom) ==
                     IF mi = 1900 * 12 + 1 /\ (eom \/ ymd[3] > 28) THEN Open
                     ELSE SerialFrom(SerialDayNo(s), MonthStart(mi) + td - 1)
 
-\* complete months from day a to day b (a <= b).  Where the end day is the
-\* last of its month and still below the start's day of month the two
-\* readings of "complete" (with / without clipping) differ: -1 = open
+\* complete months from day a to day b (a <= b): a month is complete when the
+\* start's day of month is reached again - the end of a shorter month does NOT
+\* complete it (31 Jan -> 29 Feb is 0 months in DATEDIF, although EDATE clips)
 CompleteMonths(sa, sb) ==
     LET p == SerialToYMD(sa)  q == SerialToYMD(sb)
         dm == (q[1] * 12 + q[2]) - (p[1] * 12 + p[2])
-    IN IF q[3] >= p[3] THEN dm
-       ELSE IF q[3] = DaysIn(q[1], q[2]) THEN -1
-       ELSE dm - 1
+    IN IF q[3] >= p[3] THEN dm ELSE dm - 1
 
 UnitD == <<68>>   UnitM == <<77>>   UnitY == <<89>>
 DateDif(sa, sb, unit) ==
